@@ -91,3 +91,31 @@ Proof.
     apply andb_true_iff; split; [apply seteqN_complete; exact H5|].
     destruct (i_steps i); auto. apply eqb_true_iff. apply H6. discriminate.
 Qed.
+
+(* ------------------------------------------------------------------ a query before begin_transaction() changes nothing *)
+Lemma autobegin_idem k s : sa_autobegin k (sa_autobegin k s) = sa_autobegin k s.
+Proof. unfold sa_autobegin. destruct (s_sa s) eqn:E; simpl; [rewrite E|]; reflexivity. Qed.
+Lemma autobegin_al k s : s_al (sa_autobegin k s) = s_al s.
+Proof. unfold sa_autobegin. destruct (s_sa s); reflexivity. Qed.
+Lemma run_migrations_autobegin k c steps s : run_migrations k c steps (sa_autobegin k s) = run_migrations k c steps s.
+Proof. unfold run_migrations. rewrite autobegin_idem. reflexivity. Qed.
+
+Theorem query_irrelevant_thm q i : txn_run_q q i = txn_run i.
+Proof.
+  destruct q; [|reflexivity]. unfold txn_run_q, txn_run. cbv zeta.
+  set (s0 := mkSt (mkDB (i_db0 i) None) false false).
+  set (s1 := if i_external i then sa_autobegin (i_kind i) s0 else s0).
+  set (c := mkMcfg (i_tddl i) (i_per_mig i) (s_sa s1) false).
+  unfold bt_enter. rewrite autobegin_al, autobegin_idem.
+  destruct (begin_transaction c (s_al s1) false); try reflexivity; rewrite run_migrations_autobegin; reflexivity.
+Qed.
+
+(* ------------------------------------------------------------------ several databases, online *)
+Lemma multi_run_nth dflt : forall calls prev k c, nth_error calls k = Some c ->
+  nth_error (multi_run dflt prev calls) k =
+  Some (txn_run_g (with_tddl (uc_in c)
+          (match fold_left acc_opt (map uc_tddl (firstn (S k) calls)) prev with Some b => b | None => dflt end))).
+Proof. induction calls as [|c0 calls IH]; intros prev k c; [destruct k; discriminate|].
+  destruct k as [|k]; simpl.
+  - intros [= <-]. reflexivity.
+  - intros H. rewrite (IH _ _ _ H). reflexivity. Qed.
